@@ -337,27 +337,63 @@ func prepareNonEmpty(c *an.Ctx, id string, s *sessionFns) bool {
 // sendMessageBound: the client reads at most req.Amount responses per stream
 // (loop guard i < req.Amount with i counting from 0, one append per iteration).
 func sendMessageBound(c *an.Ctx, id string, s *sessionFns) bool {
-	t, ff := c.T(s.sendMsg), c.F(s.sendMsg)
-	ok := false
-	for _, b := range s.sendMsg.Blocks {
-		acc := findAccumulator(ff, b)
-		if acc == nil {
-			continue
-		}
-		// find the counter phi in the same header: phi[0, phi+1]
-		for _, in := range b.Instrs {
-			ph, isPhi := in.(*ssa.Phi)
-			if !isPhi {
-				break
-			}
-			if _, isWalk := indexWalk(ph); !isWalk {
+	// boundedAccumulator: fn has a loop that appends one element per iteration to a fresh slice
+	// and is guarded by counter < bound
+	boundedAccumulator := func(fn *ssa.Function, bound string) bool {
+		t, ff := c.T(fn), c.F(fn)
+		for _, b := range fn.Blocks {
+			acc := findAccumulator(ff, b)
+			if acc == nil {
 				continue
 			}
-			fs := ff.AtInstr(acc.Append)
-			if fs.Has(an.LT(t.Of(ph), "p4.Amount")) {
-				ok = true
+			// find the counter phi in the same header: phi[0, phi+1]
+			for _, in := range b.Instrs {
+				ph, isPhi := in.(*ssa.Phi)
+				if !isPhi {
+					break
+				}
+				if _, isWalk := indexWalk(ph); !isWalk {
+					continue
+				}
+				if ff.AtInstr(acc.Append).Has(an.LT(t.Of(ph), bound)) {
+					return true
+				}
 			}
 		}
+		return false
 	}
-	return c.Check(ok, id, "postcond:sendMessage", "sendMessage appends one response per iteration of a loop guarded by i < req.Amount (a peer cannot make the client read more than it asked for)", s.sendMsg, nil, "", nil)
+	t := c.T(s.sendMsg)
+	ok := boundedAccumulator(s.sendMsg, "p4.Amount")
+	where := s.sendMsg
+	if !ok {
+		// the reading loop may live in a helper that is handed req.Amount as its bound and whose
+		// slice result sendMessage returns
+		an.Instrs(s.sendMsg, func(in ssa.Instruction) {
+			call, isCall := in.(*ssa.Call)
+			if !isCall || call.Call.IsInvoke() || ok {
+				return
+			}
+			cal := an.StaticCallee(&call.Call)
+			if cal == nil || cal.Blocks == nil || cal.Pkg != s.sendMsg.Pkg {
+				return
+			}
+			for i, a := range call.Call.Args {
+				if t.Of(a) != "p4.Amount" || !boundedAccumulator(cal, "p"+itoa(i)) {
+					continue
+				}
+				returned := false
+				for _, b := range s.sendMsg.Blocks {
+					if r, isRet := b.Instrs[len(b.Instrs)-1].(*ssa.Return); isRet && len(r.Results) > 0 && b != s.sendMsg.Recover {
+						if ex, isEx := t.Deref(r.Results[0]).(*ssa.Extract); isEx && ex.Tuple == ssa.Value(call) && ex.Index == 0 {
+							returned = true
+						}
+					}
+				}
+				if returned {
+					ok, where = true, cal
+				}
+			}
+		})
+	}
+	return c.Check(ok, id, "postcond:sendMessage", "sendMessage appends one response per iteration of a loop guarded by i < req.Amount (a peer cannot make the client read more than it asked for)", where, nil, "", nil)
 }
